@@ -488,8 +488,33 @@ def kr_extreme_cases():
 
 
 # ---------------------------------------------------------------- verdict plumbing
+BAD_OBS = re.compile(r"(^|[ ;|\[])(UB|INVALID)($|[;|\]])")
+
+
 class Diff(C.Differential):
     """The specification line may leave an observation unconstrained (`*`): compare position by position."""
+
+    def eval(self, lines, parallel=True):
+        """Cases on which the model reports UB or a dangling handle are never run against the library (that also
+        holds for the candidates the shrinker makes by deleting tokens): they count as "no requirement, no difference"."""
+        R, S = C.run_model(self.model_exe, lines)
+        ok = [i for i, r in enumerate(R) if not BAD_OBS.search(r[2:])]
+        sub = [lines[i] for i in ok]
+        if parallel and len(sub) > 40:
+            Isub = C.run_impl_parallel(self.impl_cmd, sub, env=self.env, jobs=self.jobs, timeout=self.impl_timeout)
+        elif sub:
+            Isub = C.run_impl_isolating(self.impl_cmd, sub, env=self.env, timeout=self.impl_timeout)
+        else:
+            Isub = []
+        I = list(R)
+        S = list(S)
+        for i, x in zip(ok, Isub):
+            I[i] = x
+        okset = set(ok)
+        for i in range(len(lines)):
+            if i not in okset:
+                S[i] = ""
+        return I, R, S
 
     def fails_spec(self, i_obs, s_obs):
         if s_obs == "":
@@ -503,8 +528,15 @@ class Diff(C.Differential):
         return any(b != "*" and a != b for a, b in zip(i, s))
 
 
-def sig_none(case):
-    return False
+def limit_failures(D, cases, I, R, S, keep=5):
+    """When many cases fail (a broken conversion fails hundreds of them), hand only the shortest few to the
+    shrinker/judge; the others are counted, not shrunk one by one."""
+    fails = [i for i in range(len(cases)) if D.fails_spec(I[i], S[i])]
+    if len(fails) <= keep:
+        return cases, I, R, S, len(fails)
+    chosen = set(sorted(fails, key=lambda i: (len(cases[i].split()), len(cases[i])))[:keep])
+    idx = [i for i in range(len(cases)) if i in chosen or i not in set(fails)]
+    return [cases[i] for i in idx], [I[i] for i in idx], [R[i] for i in idx], [S[i] for i in idx], len(fails)
 
 
 SIGNATURES = {}
@@ -530,7 +562,7 @@ def model_filter(model, cases):
     if not cases:
         return [], 0
     R, S = C.run_model(model, cases)
-    keep = [c for c, r in zip(cases, R) if not re.search(r"(^|[ ;|\[])(UB|INVALID)($|[;|\]])", r[2:])]
+    keep = [c for c, r in zip(cases, R) if not BAD_OBS.search(r[2:])]
     return keep, len(cases) - len(keep)
 
 
@@ -572,8 +604,10 @@ def run(run, tier, seed, replay_case=None):
             D = Diff(run, PROP, [impl], model, C.lib_env("asan"), signatures=SIGNATURES, keep_first=0,
                      model_desc="coq/C29/Model.v vs src/occa/internal/c/types.cpp + src/c/json.cpp")
             I, R, S = D.eval(cases)
-            pf, cb = D.judge(cases, I, R, S, proof_failures=pr["failures"], max_report=4)
-            prop_fails, corr = len(pf), len(cb)
+            jc, jI, jR, jS, nf = limit_failures(D, cases, I, R, S)
+            pf, cb = D.judge(jc, jI, jR, jS, proof_failures=pr["failures"], max_report=4)
+            prop_fails, corr = nf, len(cb)
+            run.coverage["evaluations"] += len(cases) - len(jc)
         Ik = Rk = Sk = []
         if kr:
             C.build_lib("plain")
@@ -585,9 +619,11 @@ def run(run, tier, seed, replay_case=None):
                 Dk = Diff(run, PROP, [implp], model, envp, signatures=SIGNATURES, keep_first=0, jobs=1,
                           model_desc="coq/C29/Model.v kernel_run vs occaKernelPushArg/RunN/RunWithArgs + Serial kernel")
                 Ik, Rk, Sk = Dk.eval(kr, parallel=False)
-                pf, cb = Dk.judge(kr, Ik, Rk, Sk, proof_failures=pr["failures"], max_report=4)
-                prop_fails += len(pf)
+                jc, jI, jR, jS, nf = limit_failures(Dk, kr, Ik, Rk, Sk, keep=3)
+                pf, cb = Dk.judge(jc, jI, jR, jS, proof_failures=pr["failures"], max_report=4)
+                prop_fails += nf
                 corr += len(cb)
+                run.coverage["evaluations"] += len(kr) - len(jc)
             finally:
                 shutil.rmtree(cache, ignore_errors=True)
     finally:
